@@ -149,7 +149,7 @@ func check(argv []string) int {
 	if cfg == nil {
 		cfg = &PropCfg{}
 	}
-	tmo := 20 * time.Second
+	tmo := 30 * time.Second
 	if *tier == "thorough" {
 		tmo = 120 * time.Second
 		engine.Thorough = true
